@@ -601,7 +601,7 @@ func (t *ZeroAllocTokenizer) processBlockTag(content string) {
 
 	case "for":
 		// Process for loop with iterator(s) and collection
-		inPos := strings.Index(strings.ToLower(blockContent), " in ")
+		inPos := indexFoldASCII(blockContent, " in ")
 		if inPos != -1 {
 			iterators := strings.TrimSpace(blockContent[:inPos])
 			collection := strings.TrimSpace(blockContent[inPos+4:])
@@ -695,7 +695,7 @@ func (t *ZeroAllocTokenizer) processBlockTag(content string) {
 
 	case "include":
 		// Handle include with template path and optional context
-		withPos := strings.Index(strings.ToLower(blockContent), " with ")
+		withPos := indexFoldASCII(blockContent, " with ")
 		if withPos != -1 {
 			templatePath := strings.TrimSpace(blockContent[:withPos])
 			contextExpr := strings.TrimSpace(blockContent[withPos+6:])
@@ -729,7 +729,7 @@ func (t *ZeroAllocTokenizer) processBlockTag(content string) {
 	case "from":
 		// Handle from tag which has a special format:
 		// {% from "template.twig" import macro1, macro2 as alias %}
-		importPos := strings.Index(strings.ToLower(blockContent), " import ")
+		importPos := indexFoldASCII(blockContent, " import ")
 		if importPos != -1 {
 			// Extract template path and macros list
 			templatePath := strings.TrimSpace(blockContent[:importPos])
@@ -747,7 +747,7 @@ func (t *ZeroAllocTokenizer) processBlockTag(content string) {
 				macro = strings.TrimSpace(macro)
 
 				// Check for "as" alias
-				asPos := strings.Index(strings.ToLower(macro), " as ")
+				asPos := indexFoldASCII(macro, " as ")
 				if asPos != -1 {
 					// Extract macro name and alias
 					macroName := strings.TrimSpace(macro[:asPos])
@@ -782,7 +782,7 @@ func (t *ZeroAllocTokenizer) processBlockTag(content string) {
 	case "import":
 		// Handle import tag which allows importing entire templates
 		// {% import "template.twig" as alias %}
-		asPos := strings.Index(strings.ToLower(blockContent), " as ")
+		asPos := indexFoldASCII(blockContent, " as ")
 		if asPos != -1 {
 			// Extract template path and alias
 			templatePath := strings.TrimSpace(blockContent[:asPos])
@@ -809,6 +809,30 @@ func (t *ZeroAllocTokenizer) processBlockTag(content string) {
 }
 
 // Helper methods for specialized tag tokenization
+
+// indexFoldASCII returns the byte offset in s of the first occurrence of the lower-case ASCII
+// keyword kw, ignoring the case of ASCII letters only. Unlike strings.Index(strings.ToLower(s), kw)
+// the offset is always valid for s itself: strings.ToLower changes the byte length of invalid
+// UTF-8 and of some letters (e.g. U+0130, U+212A), which made the callers slice out of range.
+func indexFoldASCII(s, kw string) int {
+	for i := 0; i+len(kw) <= len(s); i++ {
+		j := 0
+		for j < len(kw) {
+			c := s[i+j]
+			if c >= 'A' && c <= 'Z' {
+				c += 'a' - 'A'
+			}
+			if c != kw[j] {
+				break
+			}
+			j++
+		}
+		if j == len(kw) {
+			return i
+		}
+	}
+	return -1
+}
 
 // tokenizeTemplatePath handles template paths in extends/include tags
 func (t *ZeroAllocTokenizer) tokenizeTemplatePath(path string) {
